@@ -688,8 +688,14 @@ class BaseConnector:
                         await trace.send_connection_create_start()
                 proto = await self._create_connection(req, traces, timeout)
                 if traces:
-                    for trace in traces:
-                        await trace.send_connection_create_end()
+                    try:
+                        for trace in traces:
+                            await trace.send_connection_create_end()
+                    except BaseException:
+                        # The new connection is not tracked by the connector
+                        # yet, nobody else would ever close it.
+                        proto.close()
+                        raise
             except BaseException:
                 self._release_acquired(key, placeholder)
                 raise
